@@ -282,7 +282,7 @@ def regenerate_tables(names):
     exe = os.path.join(HARNESS, 'bin', 'gotables')
     if not os.path.exists(exe):
         return False, 'gotables not built'
-    rc, out = sh([exe, '-repo', REPO, '-out', os.path.join(COQ, 'Gen')] + names, env=GOENV, timeout=300)
+    rc, out = sh([exe, '-repo', REPO, '-out', os.path.join(COQ, 'Gen')] + names, cwd=HARNESS, env=GOENV, timeout=300)
     return rc == 0, out
 
 
